@@ -207,6 +207,31 @@ def nw_programs(rng, n):
     return out
 
 
+def rh_programs(n):
+    """a multi-head rule whose head list REPEATS a relation and then names another one - `node(x), node(y), src(x) <-- edge(x, y)` - with the readers of `src` (a positive clause, a
+    negation, an aggregation) written ABOVE it: by the documented meaning (one rule per head clause) `src` is defined by that rule, so its readers belong to later strata
+    wherever they stand in the text"""
+    out = []
+    for i in range(n):
+        p = {"rels": [{"arity": 2}, {"arity": 1}, {"arity": 1}, {"arity": 1}, {"arity": 1}, {"arity": 1}], "macros": [], "rules": []}
+        # readers of `src` with NO other dependency on the multi-head rule (positive / negated), and one that also reads `node`
+        r_pos = {"heads": [(3, [("var", 0)])], "body": [("cl", 2, [("v", 0)], [])]}
+        r_neg = {"heads": [(4, [("var", 0)])], "body": [("cl", 0, [("v", 0), ("_",)], []), ("neg", 2, [("e", ("var", 0))])]}
+        r_both = {"heads": [(5, [("var", 0)])], "body": [("cl", 1, [("v", 0)], []), ("cl", 2, [("v", 0)], [])]}
+        heads = [[(1, [("var", 0)]), (1, [("var", 1)]), (2, [("var", 0)])], [(1, [("var", 1)]), (1, [("var", 0)]), (2, [("var", 0)]), (1, [("add", ("var", 0), 0)])],
+                 [(1, [("var", 0)]), (1, [("var", 1)]), (2, [("var", 0)]), (2, [("add", ("var", 0), 0)])]][i % 3]
+        mh = {"heads": heads, "body": [("cl", 0, [("v", 0), ("v", 1)], [])]}
+        p["rules"] = [[r_pos, mh], [r_neg, mh], [r_pos, r_neg, mh], [r_neg, r_pos, r_both, mh], [mh, r_pos, r_neg], [r_both, r_pos, mh, r_neg]][i % 6]
+        out.append(p)
+    return out
+
+
+def rh_input(rng):
+    n = rng.range(4, 8)
+    e = list(dict.fromkeys((rng.below(n), rng.below(n)) for _ in range(rng.range(2, 6))))
+    return {0: e, 1: [(rng.below(n + 2),)] if rng.chance(1, 2) else [], 2: [], 3: [], 4: [], 5: []}
+
+
 def md_programs(n):
     """macro invocations with a PRIVATE variable inside a disjunction and again after it:  out(c) <-- start(a), (two!(a, b) | sc(a), let b = a), two!(b, c)  with
     macro two($x, $y) { e($x, mid), e(mid, $y) }  - by the documented expansion every invocation gets its own copy of `mid`, whichever alternative it sits in and
@@ -296,6 +321,10 @@ def build(rng, tier):
         q = S.expand_spec(p)
         inputs = [mh_input(rng.fork(f"mh_{i}i{j}")) for j in range(5 if quick else 14)]
         add(f"m{i}", p, q, "multi-head-side-stream", inputs)
+    for i, p in enumerate(rh_programs(6 if quick else 18)):
+        q = S.expand_spec(p)
+        inputs = [rh_input(rng.fork(f"rh_{i}i{j}")) for j in range(4 if quick else 10)]
+        add(f"r{i}", p, q, "repeated-head-relation-stream", inputs)
     for i, p in enumerate(md_programs(4 if quick else 8)):
         q = S.expand_spec(p)
         inputs = [md_input(rng.fork(f"md_{i}i{j}")) for j in range(4 if quick else 10)]
